@@ -86,7 +86,9 @@ Definition check_case (c : mcase) : list N :=
           6 an invalid or conflicting pattern was accepted   7 listeners are not those of the matched pattern
           8 OnRegister was not called exactly once, with the full pattern, for every accepted handler that
             carries it and whose mux ended up below a registered one (and for no other)
-          9 NewMux accepted an invalid path or rejected a documented-valid one *)
+          9 NewMux accepted an invalid path or rejected a documented-valid one
+          10 two accepted registrations (handler / listener) on one node name different placeholders or the
+             same names at different positions *)
 Fixpoint strip_toks (pre l : list bytes) : option (list bytes) :=
   match pre, l with
   | [], _ => Some l
@@ -167,6 +169,28 @@ Definition expected_events (c : mcase) : list event :=
     if rg_ok r && rg_clean r && rg_onreg r && nth t (c_registered c) false
     then [(join (split_pattern (nth t (c_paths c) []) ++ full_toks c (rg_mux r) (rg_pat r)), rg_hid r)]
     else []) (c_regs c).
+(* the named placeholders of a full pattern with their positions: two registrations on one node
+   conflict unless these agree *)
+Fixpoint psig (i : nat) (toks : list bytes) : list (bytes * nat) :=
+  match toks with
+  | [] => []
+  | t :: r => match kind t with KParam n => (n, i) :: psig (S i) r | _ => psig (S i) r end
+  end.
+Fixpoint psig_eq (a b : list (bytes * nat)) : bool :=
+  match a, b with
+  | [], [] => true
+  | (n1, i1) :: a', (n2, i2) :: b' => beq n1 n2 && Nat.eqb i1 i2 && psig_eq a' b'
+  | _, _ => false
+  end.
+(* accepted registrations (Handle or AddListener) at one node with different named placeholders *)
+Definition viol_conflicts (c : mcase) : list N :=
+  let places := map (fun r => (rg_mux r, rg_pat r)) (filter rg_ok (c_regs c)) ++
+                map (fun l => (lr_mux l, lr_pat l)) (filter lr_ok (c_lregs c)) in
+  if forallb (fun x => forallb (fun y =>
+        negb (same_place c (fst x) (snd x) (fst y) (snd y)) ||
+        psig_eq (psig 0 (full_toks c (fst x) (snd x))) (psig 0 (full_toks c (fst y) (snd y)))) places) places
+  then [] else [10].
+
 (* a mux path the documentation calls valid: empty, or a valid pattern all of whose tokens are literal
    ('$' '*' '>' only mark a placeholder / wildcard as the FIRST character of a token) *)
 Definition doc_valid_path (p : bytes) : bool :=
@@ -178,7 +202,7 @@ Definition viol_paths (c : mcase) : list N :=
                      | _ => [] end) (c_ops c).
 Definition viol_case (c : mcase) : list N :=
   flat_map (viol_lookup c) (c_lookups c) ++
-  viol_regs c [] (filter lr_ok (c_lregs c)) (c_regs c) ++ viol_paths c ++
+  viol_regs c [] (filter lr_ok (c_lregs c)) (c_regs c) ++ viol_paths c ++ viol_conflicts c ++
   (* callbacks of handlers whose Handle call panicked after placing them are not judged *)
   (let unclean := map rg_hid (filter (fun r => rg_ok r && negb (rg_clean r)) (c_regs c)) in
    if ev_same (expected_events c) (filter (fun e => negb (existsb (N.eqb (snd e)) unclean)) (flat_map snd (c_ops c))) then [] else [8]).
